@@ -52,8 +52,21 @@ func verifRoundTripChannel(w *writer, st byte, delta uint32, raw Message) (m Mes
 //@ ensures [P:C01] err == nil && d == delta
 //@ ensures [P:C01] len(m) == len(raw) && m[0] == raw[0] && m[1] == raw[1] && (len(raw) == 3 ==> m[2] == raw[2])
 
-// meta events: FF type vlq(len) payload, written as they are; the reader rebuilds the same bytes
-func verifRoundTripMeta(w *writer, st byte, delta uint32, typ byte, data []byte) (m Message, d uint32, err error) {
+// meta events: FF type vlq(len) payload, written as they are; the reader rebuilds the same bytes (payload below 128 bytes: one length byte)
+func verifRoundTripMetaShort(w *writer, st byte, delta uint32, typ byte, data []byte) (m Message, d uint32, err error) {
+	raw := _MetaMessage(typ, data)
+	w.addMessage(delta, raw)
+	verifLemmaVlqSpan(w.currentChunk.data, 0, delta)
+	verifLemmaVlqSpan(w.currentChunk.data, vlqLenOf(delta)+2, uint32(len(data)))
+	verifLemmaLen(len(data))
+	rd := verifReaderOver(w.currentChunk.data, st)
+	m, err = rd.readEvent()
+	d = rd.deltatime
+	return
+}
+
+// meta events: FF type vlq(len) payload, written as they are; the reader rebuilds the same bytes (payload of 128..16383 bytes: two length bytes)
+func verifRoundTripMetaLong(w *writer, st byte, delta uint32, typ byte, data []byte) (m Message, d uint32, err error) {
 	raw := _MetaMessage(typ, data)
 	w.addMessage(delta, raw)
 	verifLemmaVlqSpan(w.currentChunk.data, 0, delta)
@@ -83,8 +96,16 @@ func vlqLenOf(n uint32) int {
 //@ func vlqLenOf
 //@ ensures result == vlqLen(n)
 
-//@ func verifRoundTripMeta
-//@ requires w != nil && writerInv(w) && len(w.currentChunk.data) == 0 && st == wrs(w) && (st == 0 || (st >= 0x80 && st <= 0xEF)) && len(data) < 16384
+//@ func verifRoundTripMetaShort
+//@ requires w != nil && writerInv(w) && len(w.currentChunk.data) == 0 && st == wrs(w) && (st == 0 || (st >= 0x80 && st <= 0xEF)) && len(data) < 128
+//@ modifies w.absPos, w.currentChunk, asptr(w.runningWriter, runningstatus.smfwriter).status
+//@ ensures [P:C01] err == nil && d == delta
+//@ ensures [P:C01] len(m) == 2 + vlqLen(uint32(len(data))) + len(data) && m[0] == 0xFF && m[1] == typ
+//@ ensures [P:C01] vlqAt(m, 2, uint32(len(data)))
+//@ ensures [P:C01] forall i int :: 0 <= i && i < len(data) ==> m[2 + vlqLen(uint32(len(data))) + i] == data[i]
+
+//@ func verifRoundTripMetaLong
+//@ requires w != nil && writerInv(w) && len(w.currentChunk.data) == 0 && st == wrs(w) && (st == 0 || (st >= 0x80 && st <= 0xEF)) && len(data) >= 128 && len(data) < 16384
 //@ modifies w.absPos, w.currentChunk, asptr(w.runningWriter, runningstatus.smfwriter).status
 //@ ensures [P:C01] err == nil && d == delta
 //@ ensures [P:C01] len(m) == 2 + vlqLen(uint32(len(data))) + len(data) && m[0] == 0xFF && m[1] == typ
@@ -110,3 +131,26 @@ func verifRoundTripSysex(w *writer, st byte, delta uint32, raw Message) (m Messa
 //@ ensures [P:C01] err == nil && d == delta
 //@ ensures [P:C01] len(m) == len(raw) && m[0] == raw[0]
 //@ ensures [P:C01] forall i int :: 1 <= i && i < len(raw) ==> m[i] == raw[i]
+
+// header chunk: format, number of tracks and time division survive writeHeader followed by readMThd
+// (metric resolutions 1..32767 and the four SMPTE rates, the domain of C01)
+func verifRoundTripHeader(w *writer) (format uint16, ntr uint16, tf TimeFormat, err error) {
+	var bf bytes.Buffer
+	err = w.writeHeader(&bf)
+	if err != nil {
+		return
+	}
+	rd := newReader(bytes.NewReader(bf.Bytes()))
+	err = rd.readMThd()
+	return rd.format, rd.numTracks, rd.TimeFormat, err
+}
+
+//@ macro tfMetricOK(tf) = typeof(tf) == typeid(MetricTicks) && uint16(bval(tf)) >= 1 && uint16(bval(tf)) <= 32767
+//@ macro tfSmpteOK(tf) = typeof(tf) == typeid(TimeCode) && (asptr(tf, TimeCode).FramesPerSecond == 24 || asptr(tf, TimeCode).FramesPerSecond == 25 || asptr(tf, TimeCode).FramesPerSecond == 29 || asptr(tf, TimeCode).FramesPerSecond == 30)
+
+//@ func verifRoundTripHeader
+//@ uses be16.def
+//@ requires w != nil && w.SMF != nil && w.SMF.format <= 2 && (tfMetricOK(w.SMF.TimeFormat) || tfSmpteOK(w.SMF.TimeFormat))
+//@ ensures [P:C01] err == nil && format == w.SMF.format && ntr == w.SMF.numTracks
+//@ ensures [P:C01] tfMetricOK(w.SMF.TimeFormat) ==> (typeof(tf) == typeid(MetricTicks) && uint16(bval(tf)) == uint16(bval(w.SMF.TimeFormat)))
+//@ ensures [P:C01] tfSmpteOK(w.SMF.TimeFormat) ==> (typeof(tf) == typeid(TimeCode) && asptr(tf, TimeCode).FramesPerSecond == asptr(w.SMF.TimeFormat, TimeCode).FramesPerSecond && asptr(tf, TimeCode).SubFrames == asptr(w.SMF.TimeFormat, TimeCode).SubFrames)
